@@ -363,6 +363,139 @@ theorem C10_save_rows_partial (rowExists condHolds selectedUpdate : Bool)
   revert hpat hw
   cases rowExists <;> cases condHolds <;> cases selectedUpdate <;> simp [saveWritesRow]
 
+/-! ### exactly the targeted rows: the key condition carries EVERY non-zero primary field (all key shapes) -/
+
+/-- `Model(&m).Update / Updates / UpdateColumn(s)`: every primary field (however many there are, whatever their
+    names — not just the prioritized one) that is non-zero in the model value is an equality of the WHERE -/
+theorem C10_key_every_member (s : Schema) (nz : List Col) (f : FieldSpec) (hf : f ∈ s.fields)
+    (hpk : f.primaryKey = true) (hne : f.dbName ≠ []) (hnz : nz.contains f.name = true) :
+    f.dbName ∈ modelConds s nz := by
+  unfold modelConds
+  rw [List.mem_map]
+  have hm : f.name ∈ nz := by simpa using hnz
+  exact ⟨f, List.mem_filter.2 ⟨hf, by simp [hpk, hne, hm]⟩, rfl⟩
+
+/-- … and nothing else is: a key condition column is the column of a non-zero primary field -/
+theorem C10_key_only_members (s : Schema) (nz : List Col) (c : Col) (h : c ∈ modelConds s nz) :
+    ∃ f ∈ s.fields, f.primaryKey = true ∧ f.dbName ≠ [] ∧ f.dbName = c ∧ nz.contains f.name = true := by
+  unfold modelConds at h
+  rw [List.mem_map] at h
+  rcases h with ⟨f, hf, rfl⟩
+  have ⟨h1, h2⟩ := List.mem_filter.1 hf
+  simp only [Bool.and_eq_true, bne_iff_ne, ne_eq] at h2
+  exact ⟨f, h1, h2.1.1, h2.1.2, rfl, h2.2⟩
+
+theorem matchesKey_iff (conds : List Col) (key row : RowV) :
+    matchesKey conds key row = true ↔ ∀ c ∈ conds, row c = key c := by
+  simp [matchesKey, List.all_eq_true]
+
+/-- ROWS: a row satisfies the key condition of `Model(&m).Update…` iff it agrees with the model value on EVERY
+    primary field the model value gives non-zero -/
+theorem C10_rows_exact (s : Schema) (nz : List Col) (key row : RowV) :
+    matchesKey (modelConds s nz) key row = true ↔
+      ∀ f ∈ s.fields, f.primaryKey = true → f.dbName ≠ [] → nz.contains f.name = true →
+        row f.dbName = key f.dbName := by
+  rw [matchesKey_iff]
+  constructor
+  · intro h f hf hpk hne hnz
+    exact h _ (C10_key_every_member s nz f hf hpk hne hnz)
+  · intro h c hc
+    rcases C10_key_only_members s nz c hc with ⟨f, hf, hpk, hne, rfl, hnz⟩
+    exact h f hf hpk hne hnz
+
+/-- a SIBLING row — same `ID`, other `Locale` — is not hit: differing from the model value in one non-zero key
+    component is enough to be outside the WHERE -/
+theorem C10_sibling_untouched (s : Schema) (nz : List Col) (key row : RowV) (f : FieldSpec) (hf : f ∈ s.fields)
+    (hpk : f.primaryKey = true) (hne : f.dbName ≠ []) (hnz : nz.contains f.name = true)
+    (hd : row f.dbName ≠ key f.dbName) : matchesKey (modelConds s nz) key row = false := by
+  cases h : matchesKey (modelConds s nz) key row with
+  | false => rfl
+  | true => exact absurd ((C10_rows_exact s nz key row).1 h f hf hpk hne hnz) hd
+
+/-- key given through the updated value itself (`Save(&v)`, `Model(&v).Updates(&v)`): the field loop of
+    `ConvertToAssignments` adds exactly the same condition columns as the model-value block -/
+theorem C10_self_conds_eq (s : Schema) (hk : KeysDistinct s) (sel om : List Col) (sh : Bool) (nz mnz : List Col) :
+    (assignmentsOfStruct s s sel om true sh nz mnz).2 = modelConds s nz := by
+  unfold assignmentsOfStruct modelConds
+  simp only [if_true, Schema.dbNames, List.filterMap_map]
+  apply Eq.trans (filterMap_congr_mem _ _
+    (fun f : FieldSpec => if (f.primaryKey && nz.contains f.name) = true then some f.dbName else none) ?_)
+  · rw [filterMap_if_eq, List.filter_filter]
+    congr 1
+    apply List.filter_congr
+    intro f _
+    cases f.primaryKey <;> cases (f.dbName != []) <;> cases nz.contains f.name <;> rfl
+  · intro f hf
+    have ⟨hf1, hf2⟩ := List.mem_filter.1 hf
+    have hne : f.dbName ≠ [] := by simpa using hf2
+    simp only [Function.comp, lookUp_self hk hf1 hne]
+
+theorem C10_rows_exact_self (s : Schema) (hk : KeysDistinct s) (sel om : List Col) (sh : Bool) (nz mnz : List Col)
+    (key row : RowV) :
+    matchesKey (assignmentsOfStruct s s sel om true sh nz mnz).2 key row = true ↔
+      ∀ f ∈ s.fields, f.primaryKey = true → f.dbName ≠ [] → nz.contains f.name = true →
+        row f.dbName = key f.dbName := by
+  rw [C10_self_conds_eq s hk, C10_rows_exact]
+
+/-- key given through `Delete(&v)`: as soon as ONE component is non-zero the WHERE constrains EVERY primary
+    column (one tuple over the whole key) — a row is deleted only if it agrees on the whole key -/
+theorem C10_delete_rows_exact (s : Schema) (nz : List Col) (key row : RowV)
+    (hsome : s.primaryFields.any (fun f => nz.contains f.name) = true) :
+    matchesKey (identityConds s nz) key row = true ↔
+      ∀ f ∈ s.fields, f.primaryKey = true → f.dbName ≠ [] → row f.dbName = key f.dbName := by
+  rw [matchesKey_iff]
+  unfold identityConds
+  rw [if_pos hsome]
+  simp only [Schema.primaryDBNames, Schema.primaryFields, List.mem_map, List.mem_filter,
+    Bool.and_eq_true, bne_iff_ne, ne_eq]
+  constructor
+  · intro h f hf hpk hne
+    exact h _ ⟨f, ⟨hf, hpk, hne⟩, rfl⟩
+  · rintro h c ⟨f, ⟨hf, hpk, hne⟩, rfl⟩
+    exact h f hf hpk hne
+
+/-- … and when every component is zero no key condition is added at all (the statement then needs chain
+    conditions, C09) -/
+theorem C10_delete_zero_key (s : Schema) (nz : List Col)
+    (hnone : s.primaryFields.any (fun f => nz.contains f.name) = false) : identityConds s nz = [] := by
+  unfold identityConds
+  rw [hnone]
+  rfl
+
+/-- upsert (`OnConflict{UpdateAll}`, `Save(slice)`, Save's fallback): the conflict target gorm fills in is the
+    WHOLE key, every member of it — so `DO UPDATE` only ever overwrites the row carrying the full key -/
+theorem C10_upsert_conflict_full_key (s : Schema) (cols : List Col) (hc : cols ≠ []) (f : FieldSpec)
+    (hf : f ∈ s.fields) (hpk : f.primaryKey = true) (hne : f.dbName ≠ []) :
+    f.dbName ∈ conflictColumns s cols ∧ conflictColumns s cols = s.primaryDBNames := by
+  have he : cols.isEmpty = false := by cases cols <;> simp_all
+  simp only [conflictColumns, he, Bool.false_eq_true, if_false, Schema.primaryDBNames, Schema.primaryFields,
+    List.mem_map, List.mem_filter, Bool.and_eq_true, bne_iff_ne, ne_eq, and_true]
+  exact ⟨f, ⟨hf, hpk, hne⟩, rfl⟩
+
+/-- `selectRows` returns exactly the positions of the rows satisfying the key condition -/
+theorem C10_selectRows_spec (conds : List Col) (key : RowV) (rows : List RowV) (i n : Nat) :
+    n ∈ selectRows conds key i rows ↔ ∃ j r, n = i + j ∧ rows[j]? = some r ∧ matchesKey conds key r = true := by
+  induction rows generalizing i with
+  | nil => simp [selectRows]
+  | cons r rs ih =>
+    simp only [selectRows, List.mem_append, ih]
+    constructor
+    · rintro (h | ⟨j, r', rfl, hj, hm⟩)
+      · by_cases hm : matchesKey conds key r = true
+        · simp only [hm, if_true, List.mem_singleton] at h
+          exact ⟨0, r, by omega, by simp, hm⟩
+        · simp [hm] at h
+      · exact ⟨j + 1, r', by omega, by simpa using hj, hm⟩
+    · rintro ⟨j, r', rfl, hj, hm⟩
+      cases j with
+      | zero =>
+        simp only [List.getElem?_cons_zero, Option.some.injEq] at hj
+        subst hj
+        left; simp [hm]
+      | succ j =>
+        right
+        exact ⟨j, r', by omega, by simpa using hj, hm⟩
+
 /-! ### non-vacuity and concrete instances (kernel-evaluated) -/
 
 def exSchema : Schema :=
@@ -388,6 +521,28 @@ example : assignmentsOfStruct exSchema exSchema ["NoUpd".toList, "Name".toList] 
 /-- `Model(&T{ID:1}).UpdateColumn("no_upd", 1)` writes nothing; `Update("no_upd", 1)` only refreshes `updated_at` -/
 example : assignmentsOfMap exSchema [] [] true [("no_upd".toList, false)] = [] ∧
     assignmentsOfMap exSchema [] [] false [("no_upd".toList, false)] = ["updated_at".toList] := by decide
+
+/-- composite key `ID` + `Locale` (ID is the prioritized field): `Model(&T{ID:1, Locale:"en"}).Update(…)` →
+    `WHERE id = ? AND locale = ?`; the sibling row (1, "zh") is not hit, the row (1, "en") is -/
+def exComposite : Schema :=
+  { table := "t".toList,
+    fields := [
+      ⟨"ID".toList, "id".toList, true, true, true, true, false, false, true, false, false⟩,
+      ⟨"Locale".toList, "locale".toList, true, true, true, true, false, false, false, false, false⟩,
+      ⟨"Text".toList, "text".toList, false, true, true, true, false, false, false, false, false⟩],
+    rels := [], defaultDB := ["id".toList] }
+
+example : modelConds exComposite ["ID".toList, "Locale".toList] = ["id".toList, "locale".toList] ∧
+    modelConds exComposite ["ID".toList] = ["id".toList] ∧
+    identityConds exComposite ["ID".toList] = ["id".toList, "locale".toList] ∧
+    identityConds exComposite [] = [] ∧
+    conflictColumns exComposite ["text".toList] = ["id".toList, "locale".toList] := by decide
+
+example : selectRows (modelConds exComposite ["ID".toList, "Locale".toList])
+    (rowOf [("id".toList, "1".toList), ("locale".toList, "en".toList)]) 0
+    [rowOf [("id".toList, "1".toList), ("locale".toList, "en".toList)],
+     rowOf [("id".toList, "1".toList), ("locale".toList, "zh".toList)],
+     rowOf [("id".toList, "2".toList), ("locale".toList, "en".toList)]] = [0] := by decide
 
 example : permOfTags [("<-".toList, "create".toList)] = ⟨true, false, true, false⟩ ∧
     permOfTags [("->".toList, "->".toList)] = ⟨false, false, true, false⟩ ∧
